@@ -43,7 +43,111 @@ class G:
 """
 
 
+STATEFUL_CTORS = ("itertools.count", "count", "itertools.cycle", "cycle", "iter", "itertools.chain")
+CONTROL_STATE = """
+import itertools
+_serial = 0
+class Gen:
+    numbers = itertools.count(1)
+    made = 0
+    def name(self):
+        global _serial
+        _serial += 1
+        Gen.made += 1
+        type(self).made += 1
+        return "b%d" % next(self.numbers)
+_seen = []
+def remember(x):
+    _seen.append(x)
+    return len(_seen)
+"""
+# reviewed: (module, kind, normalised construct prefix) -> why what was compiled before cannot change an output
+REVIEWED_STATE = {
+    ("ppci/ir.py", "shared-container", "cls._instances[key] = obj"): "interning of IR types keyed by their value: a lookup returns an equal object whatever was interned before",
+    ("ppci/ir.py", "shared-container", "cls._cache[key] = obj"): "interning of IR types keyed by their value",
+}
+
+
+def process_state_sites(tree):
+    """constructs that keep state for the lifetime of the process (not of one compilation):
+    class- or module-level stateful iterators, counters kept in globals or class attributes"""
+    out = []
+    def shared_level(body, where):
+        for st in body:
+            if isinstance(st, (ast.Assign, ast.AnnAssign)) and getattr(st, "value", None) is not None:
+                v = st.value
+                if isinstance(v, ast.Call) and (norm(v.func) in STATEFUL_CTORS or (isinstance(v.func, ast.Attribute) and v.func.attr in ("count", "cycle") and "itertools" in norm(v.func))):
+                    out.append(("shared-iterator", st, "%s-level `%s`" % (where, norm(st))))
+                elif isinstance(v, ast.GeneratorExp):
+                    out.append(("shared-iterator", st, "%s-level generator `%s`" % (where, norm(st)[:60])))
+            elif isinstance(st, ast.ClassDef):
+                shared_level(st.body, "class")
+            elif isinstance(st, (ast.If, ast.Try)):
+                shared_level(getattr(st, "body", []), where)
+    shared_level(tree.body, "module")
+    classes = {c.name for c in ast.walk(tree) if isinstance(c, ast.ClassDef)}
+    shared = {}
+
+    def containers(body, where):
+        for st in body:
+            if isinstance(st, ast.Assign) and len(st.targets) == 1 and isinstance(st.targets[0], ast.Name):
+                v = st.value
+                empty_lit = isinstance(v, (ast.List, ast.Dict, ast.Set)) and not (getattr(v, "elts", None) or getattr(v, "keys", None))
+                if empty_lit or (isinstance(v, ast.Call) and norm(v.func) in ("set", "dict", "list", "defaultdict", "OrderedDict", "collections.defaultdict", "collections.OrderedDict", "OrderedSet")):
+                    shared[(where, st.targets[0].id)] = st
+            elif isinstance(st, ast.ClassDef):
+                containers(st.body, st.name)
+    containers(tree.body, None)
+
+    def is_shared(b):
+        if isinstance(b, ast.Name):
+            return (None, b.id) in shared
+        if isinstance(b, ast.Attribute):
+            return any(w is not None and n == b.attr and norm(b.value) in ("cls", "type(self)", "self.__class__", w) for (w, n) in shared)
+        return False
+    for fn in [n for n in ast.walk(tree) if isinstance(n, (ast.FunctionDef, ast.AsyncFunctionDef))]:
+        locs = {a.arg for a in fn.args.args} | {t.id for n in ast.walk(fn) if isinstance(n, ast.Assign) for t in n.targets if isinstance(t, ast.Name)}
+        for n in ast.walk(fn):
+            hit = None
+            if isinstance(n, ast.Call) and isinstance(n.func, ast.Attribute) and n.func.attr in ("append", "add", "update", "setdefault", "extend", "insert", "pop", "remove", "clear") and is_shared(n.func.value):
+                hit = n.func.value
+            elif isinstance(n, (ast.Assign, ast.AugAssign)):
+                for t in (n.targets if isinstance(n, ast.Assign) else [n.target]):
+                    if isinstance(t, ast.Subscript) and is_shared(t.value):
+                        hit = t.value
+            if hit is not None and not (isinstance(hit, ast.Name) and hit.id in locs):
+                out.append(("shared-container", n, "`%s` grows a container that lives as long as the process (in %s)" % (" ".join(norm(n).split())[:60], fn.name)))
+    for fn in [n for n in ast.walk(tree) if isinstance(n, (ast.FunctionDef, ast.AsyncFunctionDef))]:
+        globs = {n for g in ast.walk(fn) if isinstance(g, ast.Global) for n in g.names}
+        for n in ast.walk(fn):
+            if isinstance(n, ast.AugAssign):
+                t = n.target
+                if isinstance(t, ast.Name) and t.id in globs:
+                    out.append(("global-counter", n, "`%s` on a module global" % norm(n)))
+                elif isinstance(t, ast.Attribute):
+                    b = norm(t.value)
+                    if b in classes or b in ("cls", "type(self)", "self.__class__"):
+                        out.append(("class-counter", n, "`%s` on a class attribute" % norm(n)))
+    return out
+
+
 def run(ctx):
+    ctx.rule("C30.R4", "no state that outlives one compilation feeds the compile path: no class- or module-level stateful iterator, no counter kept in a module global or class attribute (names and numbers derived from it depend on what the process compiled before)", floor=1)
+    tree = ast.parse(CONTROL_STATE)
+    ctx.need(sorted(k for k, _, _ in process_state_sites(tree)) == ["class-counter", "class-counter", "global-counter", "shared-container", "shared-iterator"], "C30.R4 positive control lost")
+    n_mod = 0
+    for rel in sorted(ctx.project.modules):
+        if not rel.startswith(PREFIXES + ("ppci/ir.py", "ppci/api.py", "ppci/lang/c/", "ppci/lang/c3/", "ppci/utils/", "ppci/binutils/")):
+            continue
+        n_mod += 1
+        for kind, node, txt in process_state_sites(ctx.project.module(rel).tree):
+            why = REVIEWED_STATE.get((rel, kind, " ".join(norm(node).split())[:70]))
+            if why:
+                ctx.ob("C30.R4", rel, "reviewed: %s" % why, True, construct="reviewed-state:" + " ".join(norm(node).split())[:40])
+                continue
+            ctx.ob("C30.R4", rel, "no process-lifetime state on the compile path", False, construct="%s:%s" % (kind, " ".join(norm(node).split())[:70]), node=node, detail=txt)
+    ctx.need(n_mod > 150, "compile-path modules not enumerated (%d)" % n_mod)
+    ctx.ob("C30.R4", "ppci/*", "compile-path modules scanned for process-lifetime counters and iterators: %d" % n_mod, True, construct="scan-state")
     ctx.rule("C30.R1", "no arbitrary pick (set.pop(), next(iter(set))) from a builtin set on the compile path", floor=1)
     ctx.rule("C30.R2", "no loop or sequence built from a builtin set whose body creates ordered things (append/insert/add_node/add_edge/get_node/new_reg/emit/yield)", floor=1)
     ctx.rule("C30.R3", "the interference graph, the DAG splitter and mem2reg consume their sets through an explicit order", floor=4)
